@@ -18,7 +18,7 @@ RULE = (
 )
 TIERS = {"quick": {"shards": 8, "n": 350, "budget_s": 220}, "thorough": {"shards": 16, "n": 6000, "budget_s": 2700}}
 FLOOR = {"quick": 150, "thorough": 5000}
-REQUIRED_LABELS = {"quick": ["has-trigger", "non-suffix", "hostile-default", "round1-rejects"], "thorough": []}
+REQUIRED_LABELS = {"quick": ["has-trigger", "non-suffix", "hostile-default", "round1-rejects", "of/or-between-ordinary-words", "of/or+Optional+None"], "thorough": []}
 ASSUMPTIONS = [
     "ir equality is full dict equality on name-independent content: params (all keys except the extension key x_typ), doc, returns",
     "a first round that raises puts the case outside the property for that format (counted as round1-rejects)",
@@ -39,12 +39,18 @@ def wild(draw):
     feats = []
     for (_n, p), k in zip(case["params"], case["kinds"]):
         if draw(st.integers(0, 3)) == 0:
-            ph = draw(st.sampled_from(TRIGGER_PHRASES + ["defaults to 10", "defaults to 'abc'", "defaults to True", "path", "a int/float", "the input/output", "(defaults to 10)", "(default: 'abc')", "(Defaults to True)"]))
+            ph = draw(st.sampled_from(TRIGGER_PHRASES + ["defaults to 10", "defaults to 'abc'", "defaults to True", "path", "a int/float", "the input/output", "(defaults to 10)", "(default: 'abc')", "(Defaults to True)"] + OF_OR_PHRASES))
             base = (p.get("doc") or "alpha").rstrip(".")
             shape = draw(st.sampled_from(["mid", "end-comma", "own-sentence", "start"]))
             p["doc"] = {"mid": "%s %s %s" % (base, ph, draw(st.sampled_from(WORDS))), "end-comma": "%s, %s" % (base, ph), "own-sentence": "%s. %s." % (base, ph[0].upper() + ph[1:]), "start": "%s %s" % (ph, base)}[shape]
             feats.append("has-trigger")
             feats.append("trigger-shape:" + shape)
+            if ph in OF_OR_PHRASES:
+                feats.append("of/or-between-ordinary-words")
+                if p.get("typ") in ("int", "str", "float") and draw(st.booleans()):
+                    p["typ"], p["default"] = "Optional[%s]" % p["typ"], NoneStr
+                if (p.get("typ") or "").startswith("Optional[") and p.get("default") in (None, NoneStr):
+                    feats.append("of/or+Optional+None")
         if k == "str" and draw(st.integers(0, 3)) == 0:
             p["default"] = draw(st.sampled_from(HOSTILE))
             feats.append("hostile-default")
@@ -134,6 +140,9 @@ PLAIN = __import__("re").compile(r"^[A-Za-z][A-Za-z0-9_/~-]{0,10}$")
 SQL_OK = {"int", "float", "str", "bool", "dict"}
 
 
+# ` of ` / ` or ` between ORDINARY words: the ad-hoc type guesser builds a `Union[...]` of non-types from them, the guess
+# is discarded - a path of its own through the type/default helper (none of these is a TYPE_TRIGGER)
+OF_OR_PHRASES = ["size of each batch", "height or width", "name of the model", "kind or shape", "rate of decay per step"]
 DEFAULT_FRAGMENT = __import__("re").compile(r"[Dd]efaults?(?::| to| is)\s+\S+")
 TYPE_TRIGGERS = ("number", "whether", "list of", "string or", "path", "true if", "if true", "optional", "dictionary of", "int64", "one of", "a str", "int or float", "`np` or `tf`")
 DOC_FORMATS = ("doc_rest", "doc_google", "doc_numpydoc", "class", "pydantic", "function", "funcdoc", "argparse")
